@@ -157,8 +157,17 @@ def compare(a, b, report, path="", allow_flags=True, stats=None):
         return
     for k, (x, y) in enumerate(zip(ia, ib)):
         if x[0] != y[0] or x[1] != y[1]:
-            report("instruction stream", "%s: instruction %d: %s vs %s" % (where, k, H.short(x[:2], 200), H.short(y[:2], 200)), None)
-            return
+            mech = None
+            if x[0] == y[0] and x[1] and y[1] and x[1][0] == "const" and y[1][0] == "const":
+                # same constant once every NaN is identified (sign / payload of a NaN differs)?
+                fa, fb = sa["folded"][k], sb["folded"][k]
+                va, vb = a.co_consts[fa["arg"]], b.co_consts[fb["arg"]]
+                if H.const_fp(va, nan_ident=True) == H.const_fp(vb, nan_ident=True):
+                    mech = "distinct-nan-constants-merged"
+            report("instruction stream", "%s: instruction %d: %s vs %s" % (where, k, H.short(x[:2], 200), H.short(y[:2], 200)), mech)
+            if mech is None:
+                return
+            continue
         if x[2] != y[2]:
             report("instruction line", "%s: instruction %d %s: line %r vs %r" % (where, k, x[0], x[2], y[2]), None)
             return
